@@ -603,6 +603,14 @@ pub fn run_pipeline<W: World + Debug + 'static>(
             items,
         ),
         "lt" => wrap_and_run(&lt::<W>, &ltcli(), fos, rep, items),
+        // the statistics must pass through `AssertNormalized` unchanged
+        "asn" => wrap_and_run(
+            &|| writer::AssertNormalized::new(sn::<W>()),
+            &cli::Empty,
+            fos,
+            rep,
+            items,
+        ),
         "tee" => wrap_and_run(
             &|| Tee::new(sn::<W>(), lt::<W>()),
             &cli::Compose { left: cli::Empty, right: ltcli() },
